@@ -12,7 +12,7 @@ use serde_json::{Value, json};
 use std::collections::BTreeMap;
 use std::sync::Arc;
 
-const NAMES: &[&str] = &["a", "b-1", "k_2", "é", "\u{0}dup"]; // the last means "same name as the first attribute"
+const NAMES: &[&str] = &["a", "b-1", "k_2", "é", "\u{0}dup", "d--x"]; // the last means "same name as the first attribute"
 /// (printed value incl. quotes or None for a bare attribute, parsed value)
 const VALUES: &[(Option<&str>, &str)] = &[
     (None, ""),
@@ -29,6 +29,9 @@ const VALUES: &[(Option<&str>, &str)] = &[
     (Some("\"</block>\""), "</block>"),
     (Some("\"é ≤\""), "é ≤"),
     (Some("'<block name=\"x\">'"), "<block name=\"x\">"),
+    // Text that looks like comment delimiters of the host languages.
+    (Some("\"a--b // c # d\""), "a--b // c # d"),
+    (Some("x--y"), "x--y"),
 ];
 const SEPS: &[&str] = &[" ", "\t ", "\n"];
 const EQS: &[&str] = &["=", " = ", "\n=\n"];
@@ -99,28 +102,46 @@ enum Host {
     Hash,
     Slash,
     Html,
+    /// `// …` in JavaScript.
+    SlashLine,
+    /// `-- …` in SQL.
+    SqlLine,
+    /// `/// …` in Rust.
+    RustDoc,
 }
+
+const HOSTS: [Host; 6] = [Host::Hash, Host::Slash, Host::Html, Host::SlashLine, Host::SqlLine, Host::RustDoc];
 
 impl Host {
     fn file(self) -> &'static str {
         match self {
             Host::Hash => "x.py",
-            Host::Slash => "x.js",
+            Host::Slash | Host::SlashLine => "x.js",
             Host::Html => "x.html",
+            Host::SqlLine => "x.sql",
+            Host::RustDoc => "x.rs",
         }
+    }
+    fn single_line(self) -> bool {
+        !matches!(self, Host::Slash | Host::Html)
     }
     fn wrap(self, inner: &str) -> (String, usize) {
         match self {
             Host::Hash => (format!("# {inner}"), 2),
             Host::Slash => (format!("/* {inner} */"), 3),
             Host::Html => (format!("<!-- {inner} -->"), 5),
+            Host::SlashLine => (format!("// {inner}"), 3),
+            Host::SqlLine => (format!("-- {inner}"), 3),
+            Host::RustDoc => (format!("/// {inner}"), 4),
         }
     }
     fn code(self) -> &'static str {
         match self {
             Host::Hash => "x = 1",
-            Host::Slash => "let x = 1;",
+            Host::Slash | Host::SlashLine => "let x = 1;",
             Host::Html => "<p>t</p>",
+            Host::SqlLine => "SELECT 1;",
+            Host::RustDoc => "const X: u8 = 1;",
         }
     }
 }
@@ -205,15 +226,19 @@ fn check_attrs(attrs: &[Attr], sink: &Sink) {
     let input = json!({"attrs": attrs.iter().map(|a| json!([a.name, a.value, a.sep, a.eq])).collect::<Vec<_>>()});
     let expected = expected_attrs(attrs);
     let multiline_layout = attrs.iter().any(|a| SEPS[a.sep as usize].contains('\n') || (VALUES[a.value as usize].0.is_some() && EQS[a.eq as usize].contains('\n')));
-    for host in [Host::Hash, Host::Slash, Host::Html] {
+    for host in HOSTS {
+        // A value holding `--` cannot sit in an HTML comment.
+        if host == Host::Html && attrs.iter().enumerate().any(|(i, a)| VALUES[a.value as usize].1.contains("--") || name_of(attrs, i).contains("--")) {
+            continue;
+        }
         let mut case = Case::new();
         for closing in CLOSINGS {
-            if host == Host::Hash && (multiline_layout || closing.contains('\n')) {
+            if host.single_line() && (multiline_layout || closing.contains('\n')) {
                 continue;
             }
             case.pair(host, "", &print_tag(attrs, closing), "", expected.clone(), "</block>");
         }
-        if !(host == Host::Hash && multiline_layout) {
+        if !(host.single_line() && multiline_layout) {
             for (i, noise) in NOISE.iter().enumerate().skip(1) {
                 if host == Host::Html && *noise == "<!--" {
                     continue; // `<!--` inside an HTML comment is a parse error of the host language
@@ -278,12 +303,12 @@ const END_TAGS: &[&str] = &["</block>", "</ block >", "</block\n>", "</\tblock>"
 enum Extra {
     /// look-alike index, noise index, host index, with a real block beside it
     Lookalike(usize, usize, usize, bool),
-    /// end tag index, noise index, host index
-    EndTag(usize, usize, usize),
+    /// end tag index, noise index, host index, end tag in a comment of its own
+    EndTag(usize, usize, usize, bool),
 }
 
 fn check_extra(extra: &Extra, sink: &Sink) {
-    let hosts = [Host::Hash, Host::Slash, Host::Html];
+    let hosts = HOSTS;
     match extra {
         Extra::Lookalike(l, n, h, beside) => {
             let (look, noise, host) = (LOOKALIKES[*l], NOISE[*n], hosts[*h]);
@@ -304,17 +329,28 @@ fn check_extra(extra: &Extra, sink: &Sink) {
             sink.nontrivial();
             sink.sample(|| input);
         }
-        Extra::EndTag(e, n, h) => {
+        Extra::EndTag(e, n, h, own_comment) => {
             let (end, noise, host) = (END_TAGS[*e], NOISE[*n], hosts[*h]);
-            if host == Host::Hash && end.contains('\n') {
+            if host.single_line() && end.contains('\n') {
                 return;
             }
             if host == Host::Html && noise == "<!--" {
                 return;
             }
-            let input = json!({"end_tag": end, "noise": noise, "host": format!("{host:?}")});
+            let input = json!({"end_tag": end, "noise": noise, "host": format!("{host:?}"), "own_comment": own_comment});
             let mut case = Case::new();
-            case.pair(host, noise, "<block name=\"e\">", noise, vec![("name".into(), "e".into())], end);
+            if *own_comment {
+                // Start tag and end tag in separate comments: the end-tag comment holds nothing
+                // but noise and the (possibly spaced) end tag.
+                let (start, prefix) = host.wrap("<block name=\"e\">");
+                let lt = case.text.len() + prefix;
+                case.text.push_str(&format!("{start}\n{}\n", host.code()));
+                case.expected.push((vec![("name".into(), "e".into())], lt));
+                let inner = if noise.is_empty() || noise.contains("block") { end.to_string() } else { format!("{noise} {end} {noise}") };
+                case.plain(host, &inner);
+            } else {
+                case.pair(host, noise, "<block name=\"e\">", noise, vec![("name".into(), "e".into())], end);
+            }
             judge(&case, host, sink, &input, "endtag");
             sink.nontrivial();
         }
@@ -322,7 +358,7 @@ fn check_extra(extra: &Extra, sink: &Sink) {
 }
 
 pub fn run(cfg: &Cfg, sink: &Arc<Sink>) -> Report {
-    let mut report = Report::new("states = attribute lists; an attribute is (name ∈ {a, b-1, k_2, é, duplicate of the first}, value form ∈ {bare, unquoted, empty, with space, `>`, other quote, `=<`, `</block>`, non-ASCII, a whole start tag in quotes}, separator ∈ {space, tab+space, newline}, `=` layout ∈ {=, spaced, on its own line}); each state is printed into `#`, `/* */` and `<!-- -->` hosts with 3 closing spellings and 8 noises before/after, parsed by the real code and compared with the printed list (last duplicate wins) and the position of `<`; plus every look-alike × noise × host alone and beside real blocks, and every end-tag spelling; non-trivial = at least one attribute / every look-alike and end-tag case");
+    let mut report = Report::new("states = attribute lists; an attribute is (name ∈ {a, b-1, k_2, é, duplicate of the first}, value form ∈ {bare, unquoted, empty, with space, `>`, other quote, `=<`, `</block>`, non-ASCII, a whole start tag in quotes}, separator ∈ {space, tab+space, newline}, `=` layout ∈ {=, spaced, on its own line}); each state is printed into `#`, `/* */`, `<!-- -->`, `//`, SQL `--` and Rust `///` hosts with 3 closing spellings and 8 noises before/after, parsed by the real code and compared with the printed list (last duplicate wins) and the position of `<`; plus every look-alike × noise × host alone and beside real blocks, and every end-tag spelling; non-trivial = at least one attribute / every look-alike and end-tag case");
     report.assume("tree-sitter delivers the host comments (C03 covers that)");
     let full = attr_alphabet(false);
     let reduced = attr_alphabet(true);
@@ -342,7 +378,7 @@ pub fn run(cfg: &Cfg, sink: &Arc<Sink>) -> Report {
     let mut cases = Vec::new();
     for l in 0..LOOKALIKES.len() {
         for n in 0..NOISE.len() {
-            for h in 0..3 {
+            for h in 0..HOSTS.len() {
                 cases.push(Extra::Lookalike(l, n, h, false));
                 cases.push(Extra::Lookalike(l, n, h, true));
             }
@@ -350,8 +386,9 @@ pub fn run(cfg: &Cfg, sink: &Arc<Sink>) -> Report {
     }
     for e in 0..END_TAGS.len() {
         for n in 0..NOISE.len() {
-            for h in 0..3 {
-                cases.push(Extra::EndTag(e, n, h));
+            for h in 0..HOSTS.len() {
+                cases.push(Extra::EndTag(e, n, h, false));
+                cases.push(Extra::EndTag(e, n, h, true));
             }
         }
     }
@@ -379,11 +416,7 @@ pub fn replay(_cfg: &Cfg, input: &Value, sink: &Arc<Sink>) {
         check_attrs(&attrs, sink);
         return;
     }
-    let host = |v: &Value| match v.as_str() {
-        Some("Hash") => 0,
-        Some("Slash") => 1,
-        _ => 2,
-    };
+    let host = |v: &Value| HOSTS.iter().position(|h| Some(format!("{h:?}").as_str()) == v.as_str()).unwrap_or(0);
     let noise = NOISE.iter().position(|n| Some(*n) == input["noise"].as_str()).unwrap_or(0);
     if let Some(look) = input.get("lookalike").and_then(Value::as_str) {
         if let Some(l) = LOOKALIKES.iter().position(|x| *x == look) {
@@ -391,7 +424,7 @@ pub fn replay(_cfg: &Cfg, input: &Value, sink: &Arc<Sink>) {
         }
     } else if let Some(end) = input.get("end_tag").and_then(Value::as_str) {
         if let Some(e) = END_TAGS.iter().position(|x| *x == end) {
-            check_extra(&Extra::EndTag(e, noise, host(&input["host"])), sink);
+            check_extra(&Extra::EndTag(e, noise, host(&input["host"]), input["own_comment"].as_bool().unwrap_or(false)), sink);
         }
     }
 }
